@@ -20,6 +20,10 @@ type genOpts struct {
 	// caveatPct: percentage of delegations that carry restricting caveats
 	caveatPct int
 	kinds     []string
+	// properSession: the account has no key of its own and its attestation is a proper one
+	properSession bool
+	// attVariant: force this attestation variant (see attestations), 0 = any
+	attVariant int
 }
 
 type wb struct {
@@ -77,11 +81,17 @@ var abilityVerb = []string{"add", "remove", "list"}
 
 // pattern that grants ability `can` ("ns/verb")
 func (b *wb) grantPattern(can string) string {
-	switch b.r.Intn(5) {
+	switch b.r.Intn(6) {
 	case 0:
 		return "*"
-	case 1:
+	case 1: // the widest namespace wildcard
 		for i := 0; i < len(can); i++ {
+			if can[i] == '/' {
+				return can[:i] + "/*"
+			}
+		}
+	case 2: // the narrowest one (differs for abilities of three segments)
+		for i := len(can) - 1; i >= 0; i-- {
 			if can[i] == '/' {
 				return can[:i] + "/*"
 			}
@@ -126,6 +136,9 @@ func genWorld(r *rand.Rand, now int, o genOpts, class *string) *AWorld {
 	}
 	ns, verb := abilityNS[r.Intn(3)], abilityVerb[r.Intn(3)]
 	can := ns + "/" + verb
+	if r.Intn(6) == 0 { // abilities of three segments: `ns/*` still covers them
+		can = ns + "/" + []string{"blob", "index"}[r.Intn(2)] + "/" + verb
+	}
 	w.Desc = ADesc{Can: can, With: []string{"any", "did"}[r.Intn(2)], Derives: "default"}
 	if o.caveats {
 		w.Desc.Derives = []string{"default", "eq", "le"}[r.Intn(3)]
@@ -150,7 +163,7 @@ func genWorld(r *rand.Rand, now int, o genOpts, class *string) *AWorld {
 		sessionAt = r.Intn(depth) // chain[sessionAt] issues token sessionAt+1
 		kind := "mailto"
 		acct := b.addPrincipal(kind, -1)
-		if r.Intn(4) == 0 { // an account that also has a resolvable key
+		if r.Intn(4) == 0 && !o.properSession { // an account that also has a resolvable key
 			w.Principals[acct].Kind = "web"
 			w.Principals[acct].Wraps = b.keyPrincipal()
 			if r.Intn(2) == 0 {
@@ -199,6 +212,9 @@ func genWorld(r *rand.Rand, now int, o genOpts, class *string) *AWorld {
 							v = 0
 						}
 					}
+					if r.Intn(12) == 0 {
+						v = specialBase + r.Intn(4) // written as an empty list / map / string or false
+					}
 					nb = append(nb, [2]int{kv[0], v})
 				}
 			}
@@ -235,7 +251,11 @@ func genWorld(r *rand.Rand, now int, o genOpts, class *string) *AWorld {
 		id := b.addToken(t)
 		if i-1 == sessionAt {
 			// attestation(s) for token id, to be cited next to it
-			pendingAtt = b.attestations(id, aud)
+			if o.properSession {
+				pendingAtt = []int{b.addToken(AToken{Iss: w.Authority, Aud: aud, Caps: []ACap{{Can: "ucan/attest", With: fmt.Sprintf("@%d", w.Authority), Nb: [][2]int{{0, id}}}}, Exp: b.exp(), Signer: w.AuthorityKey, Intact: true, AlgOk: true})}
+			} else {
+				pendingAtt = b.attestations(id, aud, o.attVariant)
+			}
 		}
 		prev = id
 	}
@@ -271,14 +291,28 @@ func genWorld(r *rand.Rand, now int, o genOpts, class *string) *AWorld {
 func isKeyKind(k string) bool { return k == "ed" || k == "rsa" }
 
 // attestations for token `id` presented by `holder`: returns token ids to cite as siblings.
-func (b *wb) attestations(id int, holder int) []int {
+func (b *wb) attestations(id int, holder int, force int) []int {
 	w, r := b.w, b.r
 	authDid := fmt.Sprintf("@%d", w.Authority)
 	mk := func(iss, signer, aud int, with string, nb [][2]int, prfs []int) int {
 		return b.addToken(AToken{Iss: iss, Aud: aud, Caps: []ACap{{Can: "ucan/attest", With: with, Nb: nb}}, Prfs: prfs, Exp: b.exp(), Signer: signer, Intact: true, AlgOk: true})
 	}
 	var out []int
-	switch r.Intn(10) {
+	variant := r.Intn(14)
+	if force > 0 {
+		variant = force
+	}
+	switch variant {
+	case 10: // proper, but addressed to somebody else (it is not the citing token's own proof)
+		out = append(out, mk(w.Authority, w.AuthorityKey, b.keyPrincipal(holder), authDid, [][2]int{{0, id}}, nil))
+	case 11: // one token attesting two things; the relevant capability is not the first
+		a := mk(w.Authority, w.AuthorityKey, holder, authDid, [][2]int{{0, 900 + r.Intn(5)}}, nil)
+		w.Tokens[a].Caps = append(w.Tokens[a].Caps, ACap{Can: "ucan/attest", With: authDid, Nb: [][2]int{{0, id}}})
+		out = append(out, a)
+	case 12: // the attestation is the second capability after something else: not a session proof
+		a := mk(w.Authority, w.AuthorityKey, holder, authDid, [][2]int{{0, id}}, nil)
+		w.Tokens[a].Caps = append([]ACap{{Can: "other/thing", With: authDid, Nb: [][2]int{}}}, w.Tokens[a].Caps...)
+		out = append(out, a)
 	case 0: // none
 	case 1: // for another token
 		out = append(out, mk(w.Authority, w.AuthorityKey, holder, authDid, [][2]int{{0, 900 + r.Intn(5)}}, nil))
@@ -319,7 +353,9 @@ func (b *wb) attestations(id int, holder int) []int {
 
 // ---- defects and decorations ------------------------------------------------------------------
 
-var defectKinds = []string{"none", "wrongkey", "tamper", "aud", "resource", "ability", "nonowner", "expired", "tooearly", "algcode", "revoke", "missing", "policy", "decoys", "permute", "nbf-ok", "dup", "parsefail", "deadend"}
+const specialBase = 1000 // caveat values 1000.. are written as empty list, empty map, empty string, false
+
+var defectKinds = []string{"nearmiss", "twincap", "none", "wrongkey", "tamper", "aud", "resource", "ability", "nonowner", "expired", "tooearly", "algcode", "revoke", "missing", "policy", "decoys", "permute", "nbf-ok", "dup", "parsefail", "deadend"}
 
 func applyDefect(r *rand.Rand, w *AWorld, kind string) {
 	n := len(w.Tokens)
@@ -343,6 +379,34 @@ func applyDefect(r *rand.Rand, w *AWorld, kind string) {
 		if len(t.Caps) > 0 {
 			c := &t.Caps[r.Intn(len(t.Caps))]
 			c.Can = []string{"store/add", "store/*", "storefront/add", "upload/*", "*", "Store/add", "store/ad", "space/list"}[r.Intn(8)]
+		}
+	case "nearmiss":
+		// a wildcard over a namespace that is a proper prefix of the claimed one: `sto/*` for `store/add`
+		if len(t.Caps) > 0 {
+			claimed := w.Tokens[w.Inv].Caps[0].Can
+			k := 0
+			for k < len(claimed) && claimed[k] != '/' {
+				k++
+			}
+			if k > 1 {
+				c := &t.Caps[r.Intn(len(t.Caps))]
+				c.Can = claimed[:1+r.Intn(k-1)] + "/*"
+			}
+		}
+	case "twincap":
+		// before a capability, a twin with the same ability and resource whose caveats do not fit the claim
+		inv := &w.Tokens[w.Inv]
+		if len(inv.Caps) > 0 && len(t.Caps) > 0 && ti != w.Inv {
+			v := 2
+			if x, ok := nbGet(inv.Caps[0].Nb, 1); ok {
+				v = x
+			} else {
+				inv.Caps[0].Nb = append(inv.Caps[0].Nb, [2]int{1, v})
+			}
+			w.Desc.Derives = "eq"
+			k := r.Intn(len(t.Caps))
+			twin := ACap{Can: t.Caps[k].Can, With: t.Caps[k].With, Nb: [][2]int{{1, v + 5}}}
+			t.Caps = append(t.Caps[:k], append([]ACap{twin}, t.Caps[k:]...)...)
 		}
 	case "nonowner":
 		// the root of the chain is issued by somebody who does not own the resource
@@ -417,6 +481,10 @@ func applyDefect(r *rand.Rand, w *AWorld, kind string) {
 		addDecoys(r, w)
 	case "deadend":
 		addDeadEnd(r, w)
+	case "deadend-revoke":
+		// a dead end in front of a proof, and something of the world revoked (often the proof behind it)
+		addDeadEnd(r, w)
+		w.Revoked = append(w.Revoked, r.Intn(len(w.Tokens)))
 	}
 }
 
@@ -446,6 +514,10 @@ func addDeadEnd(r *rand.Rand, w *AWorld) {
 	}
 	src := w.Tokens[real[r.Intn(len(real))]]
 	x := b.keyPrincipal(src.Iss, w.Tokens[h].Iss)
+	if len(src.Prfs) > 0 && isKeyKind(w.Principals[src.Iss].Kind) && r.Intn(3) == 0 {
+		// the same issuer grants the same capability twice; the first grant has nothing behind it
+		x = src.Iss
+	}
 	d := AToken{Iss: x, Aud: w.Tokens[h].Iss, Signer: x, Intact: true, AlgOk: true, Caps: append([]ACap(nil), src.Caps...), Exp: b.exp(), Nonce: fmt.Sprintf("deadend%d", r.Intn(1000))}
 	if r.Intn(2) == 0 {
 		// one level more: the dead end cites an expired grant
